@@ -502,6 +502,15 @@ def cmd_fromprim(ty, s, cell=None):
     return Cmd(line, check, cell=cell, prop='C08')
 
 
+def cmd_frombool(b):
+    line = 'fromprim bool %d' % b
+
+    def check(res):
+        return chk_big('C08', res.get('u_from'), b, 'BigUint::from(bool)', 'U') + chk_big('C08', res.get('i_from'), b, 'BigInt::from(bool)', 'I')
+
+    return Cmd(line, check, cell=('frombool', b), prop='C08')
+
+
 def decode_float(bits, width):
     """-> 'nan' | 'inf' | exact Fraction-free (sign, mantissa, exp2) ; returns truncated int or None"""
     if width == 64:
